@@ -1,4 +1,4 @@
-import NomtModel.Store.SegInv
+import NomtModel.Store.SegTail
 import NomtModel.Store.DeltaLemmas
 import NomtModel.Store.SegFrameLemmas
 import NomtModel.Store.CrashLog
@@ -223,6 +223,25 @@ theorem T9_seglog_torn_header_and_zero_tail_rejected :
       .ok (⟨4096, 1, 1, [⟨1, 1, 1⟩], some 4096⟩, [exRec 1]) ∧
     (openM 4096 1 1 [(1, ⟨[exRec 1, ⟨0, []⟩], none⟩)]).out = .err (.unordered 0 2) := by
   decide
+
+/-- **(c) Power loss around recovery: the cut of the head durable, a suffix of the unlinks lost.**  `open` issues no
+directory fsync; its unlinks (dead files `P` below the live range oldest first, dead files `T` above it newest first)
+may be lost as a suffix while the fsynced cut of the head is durable: the directory is then
+`P.drop j ++ (live files, head cut after e) ++ T.take t` — no longer consecutive over the whole directory.  `open(s, e)`
+succeeds on every such image and returns the live records of the original directory (the files that came back are
+scanned segment by segment, skipped and unlinked again).  Together with `T9_seglog_open_total_on_crash_images` (a lost
+suffix of the unlinks of the prunes is a prefix image; an un-fsynced append tail lost is a torn cut) and
+`T9_seglog_rollover_needs_dirsync` this covers ordered loss of directory operations. -/
+theorem T9_seglog_recovery_lost_unlinks (maxSeg s e i0 a : Nat) (d : Dir) (R : Recoverable s e i0 a d) :
+    ∃ P D T y m, d = P ++ (D ++ [y]) ++ T ∧ (openM maxSeg s e d).dir = liveDir D y m ∧
+      (openM maxSeg s e d).effs = P.map (fun x => FsEff.unlink x.1) ++ T.reverse.map (fun x => FsEff.unlink x.1) ++
+        [.setLen y.1 (recsSize (y.2.recs.take m)), .fsync y.1] ∧
+      ∀ j t, ∃ L, (openM maxSeg s e ((P.drop j ++ liveDir D y m) ++ T.take t)).out = .ok (L, liveOf s e d) :=
+  lost_unlinks_recover maxSeg s e i0 a d R
+
+-- non-vacuity: `f16Dir` under `[1, 1]`: the head `rollback.1` is cut, `rollback.2` (unlinked last) is back
+example : (openM 4096 1 1 ((openM 4096 1 1 f16Dir).dir ++ [(2, ⟨[exRec 2], none⟩)])).out =
+    .ok (⟨4096, 1, 1, [⟨1, 1, 1⟩], some 4096⟩, [exRec 1]) := by decide
 
 /-- **(c) Which directory fsync is needed.**  Un-dir-fsynced creates / unlinks are lost as a suffix in issue order.
 For `prune_oldest`, `prune_recent` (its unlinks precede its own directory fsync, which precedes the cut) and the
